@@ -69,7 +69,11 @@ LoopOf(x) == LastS(x.ls[TopOf(x).lix])
 
 (* ------------------------------------------------------------------ Python's argument binding    *)
 (* params: sequence of [n, kind, dv], kinds in signature order pos* opt* star? (kwo|kwopt)* dstar?  *)
-(* args: [pos |-> seq of tokens, kw |-> seq of [n, nt, v]] (kw in sorted order of n)               *)
+(* args: [pos |-> seq of tokens, kw |-> seq of [n, nt, pcs]] (kw in sorted order of n).  The value of a   *)
+(* keyword argument is given as its pieces (a tag attribute `k="lit${e}lit"` is a mixture of literal text   *)
+(* and ${} values): each piece is a sequence of atoms, the value is their concatenation in order.           *)
+RECURSIVE Flat(_)
+Flat(pcs) == IF pcs = <<>> THEN <<>> ELSE pcs[1] \o Flat(SubSeq(pcs, 2, Len(pcs)))
 Bind(ps, ar) ==
   LET I == 1..Len(ps)
       npp == Cardinality({i \in I : ps[i].kind \in {"pos", "opt"}})
@@ -84,13 +88,13 @@ Bind(ps, ar) ==
       dup == kwn \cap posFilled # {}
       unk == (kwn \ named) # {} /\ ~hasD
       missing == \E i \in I : ps[i].kind \in {"pos", "kwo"} /\ ps[i].n \notin (posFilled \cup kwn)
-      KwVal(nm) == ar.kw[CHOOSE j \in K : ar.kw[j].n = nm].v
+      KwVal(nm) == Flat(ar.kw[CHOOSE j \in K : ar.kw[j].n = nm].pcs)
       DS[j \in 0..Len(ar.kw)] == IF j = 0 THEN <<>>
-                                 ELSE DS[j - 1] \o (IF ar.kw[j].n \in named THEN <<>> ELSE <<ar.kw[j].nt, ar.kw[j].v>>)
+                                 ELSE DS[j - 1] \o (IF ar.kw[j].n \in named THEN <<>> ELSE <<ar.kw[j].nt>> \o Flat(ar.kw[j].pcs))
       Val(i) == CASE ps[i].kind = "star" -> IF np > npp THEN SubSeq(ar.pos, npp + 1, np) ELSE <<>>
                   [] ps[i].kind = "dstar" -> DS[Len(ar.kw)]
                   [] ps[i].n \in posFilled -> <<ar.pos[i]>>
-                  [] ps[i].n \in kwn -> <<KwVal(ps[i].n)>>
+                  [] ps[i].n \in kwn -> KwVal(ps[i].n)
                   [] OTHER -> <<ps[i].dv>>
   IN [ok |-> ~(tooMany \/ dup \/ unk \/ missing),
       env |-> [nm \in {ps[i].n : i \in I} |-> Val(CHOOSE i \in I : ps[i].n = nm)]]
